@@ -124,14 +124,7 @@ Proof.
 Qed.
 
 (* ------------------------------------------------------------------ MultiState, field by field *)
-(** the slot-allocation part of MultiState *)
-Record CoreInv (m : mstate) : Prop := mkCI {
-  ci_nd_order : NoDup (ms_order m);
-  ci_nd_free : NoDup (ms_free m);
-  ci_disj : forall i, In i (ms_order m) -> ~ In i (ms_free m);
-  ci_bound : forall i, In i (ms_order m) \/ In i (ms_free m) -> (N.to_nat i < length (ms_members m))%nat;
-  ci_len : length (ms_members m) = (length (ms_order m) + length (ms_free m))%nat;
-  ci_free_default : forall i, In i (ms_free m) -> nthN (ms_members m) i member_default = member_default }.
+(** the slot-allocation part of MultiState: [CoreInv] is defined in model/MultiSpec.v *)
 
 Definition same_core (m m' : mstate) : Prop :=
   ms_members m = ms_members m' /\ ms_free m = ms_free m' /\ ms_order m = ms_order m'.
@@ -1144,14 +1137,7 @@ Proof.
       * congruence.
 Qed.
 
-Definition l_ins (l : iloc) (ord : list N) (idx : N) : option (list N) :=
-  match l with
-  | LEnd => Some (ord ++ [idx])
-  | LIndex p => Some (insert_at ord (Nat.min (N.to_nat p) (length ord)) idx)
-  | LFromBack p => Some (insert_at ord (length ord - N.to_nat p) idx)
-  | LAfter r => match posN r ord with Some p => Some (insert_at ord (S p) idx) | None => None end
-  | LBefore r => match posN r ord with Some p => Some (insert_at ord p idx) | None => None end
-  end.
+(* [l_ins] (MultiState::insert on a plain list of slots) is defined in model/MultiSpec.v *)
 
 Lemma l_ins_In l ord idx ord' : l_ins l ord idx = Some ord' -> forall j, In j ord' <-> j = idx \/ In j ord.
 Proof.
